@@ -57,9 +57,10 @@ def run(tier):
         conform(cfg, ["prims-vectors", vf, o])
         _merge(ck, json.load(open(o)), "" if cfg == "stable" else "[%s] " % cfg)
     nrand = 1000000 if thorough else 20000
-    for cfg in ["stable"] + (["simd"] if thorough else []):
+    # nightly: the same sweep with heap / locked containers and the locked precomputed keys
+    for cfg in ["stable", "nightly"] + (["simd"] if thorough else []):
         o = os.path.join(wd, "sweep_%s.json" % cfg)
-        conform(cfg, ["prims-sweep-c05", tf, o, ck.seed, nrand if cfg == "stable" else 20000, 1000], timeout=3400)
+        conform(cfg, ["prims-sweep-c05", tf, o, ck.seed, nrand if cfg == "stable" else (20000 if thorough else 2000), 1000], timeout=3400)
         _merge(ck, json.load(open(o)), "" if cfg == "stable" else "[%s] " % cfg)
     # the composition of Dryoc.tla with dryoc on one side and libsodium on the other
     d = run_tlc("Dryoc", workers=2, xss="512m", coverage=False, timeout=600)
